@@ -22,8 +22,8 @@ EXTENDS Integers, Sequences, FiniteSets, TLC
 
 CONSTANTS Handles, None, Kind       \* Kind = "sim" (Simultaneous: steady, solve) or "seq" (Sequential: parameters only)
 
-VARIABLES obj, last
-mvars == <<obj, last>>
+VARIABLES obj, last, tol        \* tol[h]: which tolerance setting handle h carries (0 = defaults; a model-level attribute, not per variant)
+mvars == <<obj, last, tol>>
 
 Vals == 1..3
 MaxVariants == 3
@@ -31,7 +31,7 @@ Var(p, st, so) == [p |-> p, st |-> st, so |-> so]
 InUse(h) == obj[h] # <<>>
 
 Init == /\ obj = [h \in Handles |-> IF h = "h1" THEN <<Var(<<1, 1>>, None, None)>> ELSE <<>>]
-        /\ last = <<"init">>
+        /\ last = <<"init">> /\ tol = [h \in Handles |-> 0]
 
 SetPar(p, name, val) == IF name = "g" THEN <<val, p[2]>> ELSE <<p[1], val>>
 \* the assigned value is the next one in the cycle 1, 2, 3 after the current value of the first affected variant (this keeps the
@@ -44,36 +44,39 @@ Assign(h, which, name) ==
     /\ \E val \in {Cycle(CurVal(h, which, name))} :
        /\ obj' = [obj EXCEPT ![h] = [i \in 1..Len(obj[h]) |->
                      IF which = 0 \/ which = i THEN [obj[h][i] EXCEPT !.p = SetPar(obj[h][i].p, name, val)] ELSE obj[h][i]]]
-       /\ last' = <<"assign", h, which, name, val>>
+       /\ last' = <<"assign", h, which, name, val>> /\ UNCHANGED tol
 Steady(h) == /\ Kind = "sim" /\ InUse(h)
              /\ obj' = [obj EXCEPT ![h] = [i \in 1..Len(obj[h]) |-> [obj[h][i] EXCEPT !.st = obj[h][i].p]]]
-             /\ last' = <<"steady", h>>
+             /\ last' = <<"steady", h>> /\ UNCHANGED tol
 \* the first-order solution is computed around the stored steady state, which must be the one of the current parameters
 Solve(h) == /\ Kind = "sim" /\ InUse(h) /\ \A i \in 1..Len(obj[h]) : obj[h][i].st = obj[h][i].p
             /\ obj' = [obj EXCEPT ![h] = [i \in 1..Len(obj[h]) |-> [obj[h][i] EXCEPT !.so = obj[h][i].p]]]
-            /\ last' = <<"solve", h>>
+            /\ last' = <<"solve", h>> /\ UNCHANGED tol
 \* shrinking keeps the first n variants, expanding repeats the last one
 Alter(h, n) == /\ InUse(h) /\ n # Len(obj[h])
                /\ obj' = [obj EXCEPT ![h] = [i \in 1..n |-> IF i <= Len(obj[h]) THEN obj[h][i] ELSE obj[h][Len(obj[h])]]]
-               /\ last' = <<"alter", h, n>>
+               /\ last' = <<"alter", h, n>> /\ UNCHANGED tol
 \* copy(), pickle, dill, irispie.save/load: the new handle has an equal record
 Succ(h) == IF h = "h1" THEN "h2" ELSE IF h = "h2" THEN "h3" ELSE "h1"
 Dup(h, k, how) == /\ InUse(h) /\ k # h /\ (k = Succ(h) \/ ~InUse(k))
                   /\ (how \in {"copy", "pickle"} \/ Len(obj[h]) # 2)       \* (thins out the duplications among the successors)
                   /\ obj' = [obj EXCEPT ![k] = obj[h]]
-                  /\ last' = <<"dup", h, k, how>>
+                  /\ last' = <<"dup", h, k, how>> /\ tol' = [tol EXCEPT ![k] = tol[h]]
+\* override_tolerance: a customised tolerance travels with copies and pickles and is never shared
+SetTol(h) == /\ Kind = "sim" /\ InUse(h)
+             /\ tol' = [tol EXCEPT ![h] = (tol[h] % 2) + 1] /\ obj' = obj /\ last' = <<"tol", h, (tol[h] % 2) + 1>>
 
 Next == \/ \E h \in Handles, w \in 0..MaxVariants, nm \in {"g", "rho"} : Assign(h, w, nm)
-        \/ \E h \in Handles : Steady(h) \/ Solve(h)
+        \/ \E h \in Handles : Steady(h) \/ Solve(h) \/ SetTol(h)
         \/ \E h \in Handles, n \in 1..MaxVariants : Alter(h, n)
         \/ \E h \in Handles, k \in Handles, how \in {"copy", "pickle", "dill", "saveload"} : Dup(h, k, how)
 Spec == Init /\ [][Next]_mvars
 
 \* independence: an action changes only the handle it is applied to (the target handle for a duplication)
 Touched == IF last'[1] = "dup" THEN last'[3] ELSE last'[2]
-Prop_Independence == [][\A x \in Handles : x # Touched => obj'[x] = obj[x]]_mvars
+Prop_Independence == [][\A x \in Handles : x # Touched => (obj'[x] = obj[x] /\ tol'[x] = tol[x])]_mvars
 \* a fresh duplicate is equivalent to its source
-Prop_DupEquivalent == [][last'[1] = "dup" => obj'[last'[3]] = obj[last'[2]] /\ obj'[last'[2]] = obj[last'[2]]]_mvars
+Prop_DupEquivalent == [][last'[1] = "dup" => obj'[last'[3]] = obj[last'[2]] /\ obj'[last'[2]] = obj[last'[2]] /\ tol'[last'[3]] = tol[last'[2]]]_mvars
 \* a stored solution always belongs to parameter values for which a steady state had been computed
 Inv_Typed == \A h \in Handles : Len(obj[h]) <= MaxVariants
 =============================================================================
